@@ -201,6 +201,58 @@ func driveScalar(c *ctx) {
 		}
 	}
 	vecOp("sc.Sum", func(rcv *secp256k1.Scalar, vec ...*secp256k1.Scalar) *secp256k1.Scalar { return rcv.Sum(vec...) })
+	// accumulation windows of a many-term sum (round 8): three to six terms whose residues - as values, and as the internal Montgomery
+	// residues - add up to just below / just above k * 2^256, for every possible number of carries k: a sum that defers its reduction
+	// to the end folds k carries back in, and the fold itself may carry
+	rinv := new(big.Int).ModInverse(new(big.Int).Mod(big2_256, bigN), bigN)
+	for n := 3; n <= 6; n++ {
+		for k := 1; k < n; k++ {
+			for _, inMont := range []bool{false, true} {
+				for _, delta := range []*big.Int{big.NewInt(-2), big.NewInt(-1), big.NewInt(0), big.NewInt(1), new(big.Int).Lsh(big.NewInt(1), 64), new(big.Int).Lsh(big.NewInt(int64(k)), 127),
+					new(big.Int).Lsh(big.NewInt(int64(k)), 128), new(big.Int).Lsh(big.NewInt(int64(k)), 129), new(big.Int).Rand(r, new(big.Int).Lsh(big.NewInt(int64(k)), 129))} {
+					target := new(big.Int).Sub(new(big.Int).Mul(big.NewInt(int64(k)), big2_256), big.NewInt(1))
+					target.Sub(target, delta)
+					res := make([]*big.Int, n)
+					acc := new(big.Int)
+					each := new(big.Int).Div(target, big.NewInt(int64(n)))
+					for i := 0; i < n-1; i++ {
+						j := new(big.Int).Rand(r, new(big.Int).Lsh(big.NewInt(1), 200))
+						res[i] = new(big.Int).Add(each, j)
+						if i%2 == 1 {
+							res[i].Sub(each, j)
+						}
+						acc.Add(acc, res[i])
+					}
+					res[n-1] = new(big.Int).Sub(target, acc)
+					ok := true
+					for _, x := range res {
+						if x.Sign() < 0 || x.Cmp(bigN) >= 0 {
+							ok = false
+						}
+					}
+					if !ok {
+						continue
+					}
+					vec := make([]*secp256k1.Scalar, n)
+					pre := make([]string, n)
+					for i, x := range res {
+						if inMont {
+							x = new(big.Int).Mod(new(big.Int).Mul(x, rinv), bigN)
+						}
+						vec[i] = scFrom(x)
+						pre[i] = scHex(vec[i])
+					}
+					rcv := scJunk(r)
+					rcv.Sum(vec...)
+					post := make([]string, n)
+					for i := range vec {
+						post[i] = scHex(vec[i])
+					}
+					c.E("sc.Sum", "vec", pre, "recv", 0, "dup", false, "window", true, "out", scHex(rcv), "vec_post", post)
+				}
+			}
+		}
+	}
 	vecOp("sc.Product", func(rcv *secp256k1.Scalar, vec ...*secp256k1.Scalar) *secp256k1.Scalar { return rcv.Product(vec...) })
 
 	// ---- decoding
